@@ -359,7 +359,25 @@ fn random_one<T: Elem + serde::Serialize + serde::de::DeserializeOwned>(rng: &mu
         let same = |r: &Option<Message>| r.as_ref().map(|m| m.decode_typed_slice::<T>().map(|d| bits(&d) == bits(&v)).unwrap_or(false)).unwrap_or(false);
         same(&owned) && same(&viewed)
     };
-    json!({"ev": "array", "class": T::KLASS, "code": T::KODE, "n": n, "qlen": qlen,
+    // the same array bytes under any OTHER declared body format (raw binary, JSON, UTF-8, unknown): rejected on both bulk
+    // routes and both dispatch paths, never reinterpreted as the array they happen to spell
+    let mut wrong_fmt_accepted: Vec<String> = vec![];
+    for (suffix, body) in [("b", "bulk"), ("r", "bulk"), ("r", "aligned")] {
+        for fmt in [0u16, 2, 3, 77, 0xFFFF] {
+            let p = format!("{path}{suffix}");
+            let b = Message::builder().id(1).query_str(&p);
+            let mut req = if body == "bulk" { b.body_typed_slice(&v).build() } else { b.body_aligned_typed_slice(&v).build() };
+            req.header.body_format = fmt;
+            let h = router.get(&p).unwrap();
+            let owned_rejected = h.handle(&req).map(|r| r.is_error()).unwrap_or(true);
+            let frame = req.to_vec();
+            let view = MessageView::from_slice(&frame).unwrap();
+            let view_rejected = h.handle_view(&view, &CallContext::detached(&p)).map(|r| r.is_error()).unwrap_or(true);
+            if !owned_rejected { wrong_fmt_accepted.push(format!("{suffix}:{body}:{fmt}:owned")); }
+            if !view_rejected { wrong_fmt_accepted.push(format!("{suffix}:{body}:{fmt}:view")); }
+        }
+    }
+    json!({"ev": "array", "class": T::KLASS, "code": T::KODE, "n": n, "qlen": qlen, "route_wrong_format_accepted": wrong_fmt_accepted,
            "bulk_len": bytes_of(&bf["bulk"]).len(), "bulk_head": bytes_of(&bf["bulk"]).iter().take(6).collect::<Vec<_>>(),
            "generic_len": bytes_of(&gf["generic"]).len(), "generic_equal": bf["bulk"] == gf["generic"],
            "stream_equal": bf["stream_equal"], "bulk_dec_bulk": bf["bulk_dec_bulk"], "bulk_dec_generic": gf["bulk_dec_generic"],
